@@ -16,8 +16,8 @@ func c16CompareContents(chunkA, chunkB bool, failA, failB int) {
 	calls := vp.Bound("readcalls", 4, 6)
 	if chunkA || chunkB {
 		// symbolic piece boundaries make every byte an ite chain: smaller bounds
-		max = vp.Bound("filelen.chunked", 4, 8)
-		calls = vp.Bound("readcalls.chunked", 3, 5)
+		max = vp.Bound("filelen.chunked", 6, 10)
+		calls = vp.Bound("readcalls.chunked", 4, 6)
 	}
 	fa := c16SymFile("f", "a", max)
 	fb := c16SymFile("f", "b", max)
